@@ -673,7 +673,7 @@ def _malformed_cases(ctx, idx):
     s = _gen_group(ctx, 'bad', idx, 1, dim)
     kind = ['closed-polygon', 'point-count', 'non-finite', 'meas-more', 'meas-fewer', 'meas-single', 'meas-nan-padded',
             'meas-nan-short', 'mixed-dims', 'wrong-columns', 'one-dimensional', 'number', 'empty', 'unknown-type',
-            'sop-numbering', 'meas-wrong-type', 'meas-parsed-single', 'meas-parsed-count'][idx % 18]
+            'sop-numbering', 'meas-wrong-type', 'meas-parsed-single', 'meas-parsed-count', 'non-finite-shared-z'][idx % 19]
     from highdicom.ann import Measurements
     n = len(s['counts'])
 
@@ -713,6 +713,21 @@ def _malformed_cases(ctx, idx):
         s['meas'] = []
         d.update(which=j, value=str(bad))
         return d, lambda: _build_group(s, graphic_data=gd), _model_args(s['gtype'], gd)
+    if kind == 'non-finite-shared-z':
+        # 3-D data whose z is the SAME non-finite value for every point of the group (it would become CommonZCoordinateValue)
+        gt = GTYPES[(idx // 19) % 5]
+        cnt = _gen_counts(r, gt)
+        if (idx // 95) % 2 == 0:
+            cnt = cnt[:1]
+        fdt = np.float64 if r.random() < 0.5 else np.float32
+        gd, _ = _gen_coords(r, ctx.np_rng('bad', idx), gt, cnt, 3, 'const', 'f8')
+        bad = [np.nan, np.inf, -np.inf][(idx // 19) % 3]
+        gd = [a.astype(fdt) for a in gd]
+        for a in gd:
+            a[:, 2] = bad
+        s['meas'] = []
+        d.update(gtype=gt, dim=3, n=len(cnt), value=str(bad))
+        return d, lambda: _build_group(s, graphic_data=gd, graphic_type=gt), _model_args(gt, gd)
     if kind == 'meas-more':
         extra = r.choice([1, 2, n])
         return dict(d, values=n + extra), lambda: _build_group(s, measurements=meas(np.arange(n + extra) + 1.0)), \
